@@ -60,7 +60,7 @@ def run(ctx):
         f = prog.fn(name)
 
         def invalid(f, bid, s, name=name):
-            known = frozenset((k, p) for i2, s2 in enumerate(f.blocks[bid]['succ']) if s2 == s for k, p, a in f.edge_facts(bid, i2))
+            known = frozenset((k, p) for i2, s2 in enumerate(f.blocks[bid]['succ']) if s2 == s for k, p, a in f.edge_facts(bid, i2, all=True))
             r = f.find_path(None, lambda x: x['k'] == 'ret' and not (
                 const_value(x.get('e')) == 0 or 'nullopt' in dstr(x.get('e')) or
                 (strip(x.get('e')) or {}).get('k') == 'ctor' and not (strip(x.get('e')) or {}).get('args')),
